@@ -244,3 +244,79 @@ contract(F, 'ClockTask.__init__', props=('C05', 'C10'),
          modifies=[('self', 'clock'), ('self', 'task'), ('self', 'scheduler')],
          fields={'ClockTask': {'clock': 'obj', 'task': 'obj', 'scheduler': 'obj'}},
          hooks={'getattr': nrt_getattr}, class_modules={'ClockTask': F}, native=False)
+
+
+# ---- Quant.as_quant: what a `quant` argument means (C05: "routines start ... on the grid asked for") -------
+def q_construct(eng, f, args, kwargs, st, node):
+    if f.k in ('class', 'cls') or (f.k == 'ref' and f.oid == 'cls'):
+        r = V('obj', oid='a-quant', extra={'args': tuple(args)})
+        st.trace.append(('quant', tuple(args)))
+        return [(st, r)]
+    return None
+
+
+def q_call(eng, f, args, kwargs, st, node):
+    if f.k == 'ref' and f.oid == 'cls':
+        r = V('obj', oid='a-quant', extra={'args': tuple(args)})
+        st.trace.append(('quant', tuple(args)))
+        return [(st, r)]
+    return None
+
+
+def q_builtin(eng, name, args, kwargs, st, node):
+    if name == 'isinstance' and len(args) == 2 and (
+            (args[1].k == 'ref' and args[1].oid == 'cls') or (args[1].k == 'class' and args[1].py == 'Quant')):
+        v = args[0]
+        return [(st, vbool(v.k == 'obj' and v.oid == 'already-a-quant'))]
+    return None
+
+
+def q_post(kind):
+    def post(c):
+        made = [e for e in c.trace if e[0] == 'quant']
+        r = c.resultv
+        q = c._params['quant']
+        if kind == 'quant':
+            return z3.BoolVal(r is q and not made)                       # a Quant is passed through
+        if len(made) != 1 or r.k != 'obj' or r.oid != 'a-quant':
+            return z3.BoolVal(False)
+        a = made[0][1]
+        if kind in ('int', 'real'):
+            return z3.BoolVal(len(a) == 1 and a[0] is q)                 # Quant(number): that quant, default phase
+        if kind == 'pair':
+            return z3.BoolVal(len(a) == 2 and a[0] is q.items[0] and a[1] is q.items[1])   # Quant(quant, phase)
+        return z3.BoolVal(len(a) == 0)                                    # None: the defaults
+    return post
+
+
+def pair_kind(eng, name):
+    return vtuple([vreal(z3.Real('pair.quant')), vreal(z3.Real('pair.phase'))])
+
+
+def aq_kind(eng, name):
+    return V('obj', oid='already-a-quant')
+
+
+for kind, pk in (('quant', aq_kind), ('int', 'int'), ('real', 'real'), ('pair', pair_kind), ('none', 'none')):
+    contract(F, 'Quant.as_quant', props=('C05', 'C12'), params={'cls': 'cls', 'quant': pk},
+             ensures=[('quant-passed-through,number->Quant(n),pair->Quant(q,phase),None->defaults', q_post(kind))],
+             hooks={'construct': q_construct, 'call': q_call, 'builtin_first': q_builtin},
+             class_modules={'Quant': F}, native=False)
+    from vf.pyvc.spec import REGISTRY
+    key = '%s::Quant.as_quant#%s' % (F, kind)
+    REGISTRY[key] = REGISTRY.pop('%s::Quant.as_quant' % F)
+    REGISTRY[key].key = key
+
+
+def q_other_kind(eng, name):
+    return V('obj', oid='something-else')
+
+
+contract(F, 'Quant.as_quant', props=('C05', 'C12'), params={'cls': 'cls', 'quant': q_other_kind},
+         raises={'TypeError': lambda c: z3.BoolVal(True)}, ensures=[],
+         on_raise=[('no-quant-made', lambda c: z3.BoolVal(not [e for e in c.trace if e[0] == 'quant']))],
+         hooks={'construct': q_construct, 'call': q_call, 'builtin_first': q_builtin},
+         class_modules={'Quant': F}, native=False)
+key = '%s::Quant.as_quant#other' % F
+REGISTRY[key] = REGISTRY.pop('%s::Quant.as_quant' % F)
+REGISTRY[key].key = key
